@@ -1,13 +1,14 @@
 #!/bin/sh
-# refactor_matrix.sh [jobs] : every stored behaviour-preserving refactoring x every pack, on scratch copies of /repo's current tree
+# refactor_matrix.sh [jobs] ["C12 C15 .."] : every stored behaviour-preserving refactoring x every pack, on scratch copies of /repo's current tree
 # (one extraction per refactoring).  Prints one line per refactoring that raises an alarm; exit 1 if any does.
 J=${1:-6}
+PROPS="${2:-}"
 OUT=$(mktemp -d /tmp/verif-rmx-XXXXXX)
 cd /verif
 ls -d refactorings/*/ | while read d; do n=$(basename $d); echo "/verif/$d/patch.diff $n"; done > $OUT/list
 cat > $OUT/run.sh <<EOS
 #!/bin/sh
-/verif/tryall_scratch.sh \$1 > $OUT/\$2.txt 2>&1
+/verif/tryall_scratch.sh \$1 $PROPS > $OUT/\$2.txt 2>&1
 EOS
 chmod +x $OUT/run.sh
 cat $OUT/list | xargs -P $J -n 2 $OUT/run.sh
@@ -17,6 +18,6 @@ for f in $OUT/*.txt; do
   r=$(grep -v '^UNDECIDED' $f | tr '\n' ' ')
   if [ -n "$r" ]; then echo "FALSE-ALARM-ON-REFACTORING $(basename $f .txt): $r"; bad=1; fi
 done
-echo "$(ls $OUT/*.txt | wc -l) refactorings x 20 packs; undecided obligations: $(cat $OUT/*.txt | grep -c '^UNDECIDED')"
+echo "$(ls $OUT/*.txt | wc -l) refactorings x ${PROPS:-20 packs}; undecided obligations: $(cat $OUT/*.txt | grep -c '^UNDECIDED')"
 rm -rf $OUT
 exit $bad
